@@ -108,6 +108,7 @@ func (c *rollCtr) elemAccess(in ssa.Instruction) bool {
 }
 
 func runC17(p *Prog, r *Report) {
+	c17SlotAndBuilders(p, r)
 	// R10: every completed response is counted
 	c17RecordComplete(p, r, "C17.R10")
 	// R9: ratios are consistent cuts
@@ -540,6 +541,7 @@ func checkZeroGuardedDivisions(p *Prog, r *Report, fn *ssa.Function, rule string
 func mutantsC17() []Mutant {
 	f := "memmetrics/counter.go"
 	return []Mutant{
+		{Name: "slot-from-cached-last-bucket", File: "memmetrics/counter.go", Old: "func (c *RollingCounter) getBucket(t time.Time) int {\n", New: "func (c *RollingCounter) getBucket(t time.Time) int {\n\tif c.lastBucket >= 0 && t.Equal(c.lastUpdated) {\n\t\treturn c.lastBucket\n\t}\n", Expect: "C17.R3"},
 		{Name: "clone-through-append", File: "memmetrics/counter.go", Old: "\t\tlastUpdated: c.lastUpdated,\n\t}\n\tcopy(other.values, c.values)\n", New: "\t}\n\t_ = other.Append(c)\n", Expect: "C17.R5"},
 		{Name: "ratio-from-two-sections", File: "memmetrics/roundtrip.go", Old: "\tm.countersLock.Lock()\n\tdefer m.countersLock.Unlock()\n\n\tif m.total.Count() == 0 {\n\t\treturn 0\n\t}\n\treturn float64(m.netErrors.Count()) / float64(m.total.Count())\n", New: "\ttotal := m.TotalCount()\n\tif total == 0 {\n\t\treturn 0\n\t}\n\treturn float64(m.NetworkErrorCount()) / float64(total)\n", Expect: "C17.R9"},
 		{Name: "append-skips-own-cleanup", File: "memmetrics/counter.go", Old: "\tc.Inc(int(o.Count()))\n", New: "\tc.incBucketValue(int(o.Count()))\n", Expect: "C17.R2"},
@@ -878,5 +880,86 @@ func c17RecordComplete(p *Prog, r *Report, rule string) {
 		r.Paths++
 		r.Check(ret2 == nil, rule, "memmetrics.(*RTMetrics).Record: every response's status code is counted", p.FuncPos(rec), "every return has passed "+FName(sc),
 			"Record can return without counting the status code"+posOf(p, ret2)+": ResponseCodeRatio misses such responses")
+	}
+}
+
+// c17SlotAndBuilders: (R3) the slot an instant falls into is a pure function of the instant, the resolution and
+// the number of slots: the slot routine (time parameter, int result) reads no other field of the counter — a
+// remembered "last slot" goes stale once the warm-up bookkeeping stops and later increments land in a foreign
+// slot; (R1) the metrics' constructor calls the configured builders only after every option has run, so that
+// the requested window (buckets x resolution) is the one the totals are counted in.
+func c17SlotAndBuilders(p *Prog, r *Report) {
+	rc := p.Named("memmetrics", "RollingCounter")
+	if rc != nil {
+		for _, fn := range p.Methods(rc) {
+			if fn.Blocks == nil || fn.Signature.Params().Len() != 1 || !isTimeT(fn.Signature.Params().At(0).Type()) || fn.Signature.Results().Len() != 1 || !isPlainBasic(types.Int)(fn.Signature.Results().At(0).Type()) {
+				continue
+			}
+			r.Fn(FName(fn))
+			var other ssa.Instruction
+			for _, b := range fn.Blocks {
+				for _, in := range b.Instrs {
+					u, ok := in.(*ssa.UnOp)
+					if !ok || u.Op != token.MUL {
+						continue
+					}
+					if nt, f, base, ok := fieldOf(u.X); ok && nt == rc && stripConv(base) == ssa.Value(fn.Params[0]) {
+						ft := structFieldType(rc, f)
+						_, isSlice := ft.Underlying().(*types.Slice)
+						if !isDurationT(ft) && !isSlice {
+							other = in
+						}
+					}
+				}
+			}
+			r.Check(other == nil, "C17.R3", FName(fn)+": the slot of an instant depends on the instant, the resolution and the number of slots only", p.FuncPos(fn), "no other field of the counter is read",
+				"the slot routine reads further state of the counter"+atInstr(p, other)+": a cached slot index is not maintained once the counter is warm, so increments are booked in a foreign slot and expire with it")
+		}
+	}
+	rt := p.Named("memmetrics", "RTMetrics")
+	if rt == nil {
+		return
+	}
+	for _, fn := range p.PkgFuncs("memmetrics") {
+		obj := allocOf(fn, rt)
+		if obj == nil || fn.Parent() != nil {
+			continue
+		}
+		var opts, builders []ssa.Instruction
+		for _, c := range Calls(fn) {
+			cc := c.Common()
+			if cc.IsInvoke() || cc.StaticCallee() != nil {
+				continue
+			}
+			isOpt := false
+			for _, a := range cc.Args {
+				if stripConv(a) == ssa.Value(obj) {
+					isOpt = true
+				}
+			}
+			if isOpt {
+				opts = append(opts, c)
+				continue
+			}
+			if u, ok := stripConv(cc.Value).(*ssa.UnOp); ok {
+				if nt, _, base, ok := fieldOf(u.X); ok && nt == rt && stripConv(base) == ssa.Value(obj) {
+					builders = append(builders, c)
+				}
+			}
+		}
+		if len(opts) == 0 || len(builders) == 0 {
+			continue
+		}
+		r.Fn(FName(fn))
+		var early ssa.Instruction
+		for _, bc := range builders {
+			for _, oc := range opts {
+				if Reach(fn, bc, nil, nil)[oc] {
+					early = bc
+				}
+			}
+		}
+		r.Check(early == nil, "C17.R1", FName(fn)+": counters and histogram are built after the options ran", p.FuncPos(fn), "no option call is reachable from a builder call",
+			"a configured builder is called before the options have run"+atInstr(p, early)+": totals are counted in the default window while per-code counters use the requested one — events older than the requested window are still counted (or recent ones lost)")
 	}
 }
